@@ -12,7 +12,8 @@ os.makedirs(dst, exist_ok=True)
 for f in ('patch.diff', 'demo.rs', 'notes.txt'):
     if os.path.exists(f'{wt}/seed_out/{f}'):
         shutil.copy(f'{wt}/seed_out/{f}', f'{dst}/{f}')
-env = dict(os.environ, CARGO_NET_OFFLINE='true', CARGO_TARGET_DIR='/var/tmp/seedchk/target')
+env = dict(os.environ, CARGO_NET_OFFLINE='true', CARGO_TARGET_DIR='/var/tmp/seedchk/target_' + sid)
+shutil.rmtree('/var/tmp/seedchk/target_' + sid, ignore_errors=True)
 scr = '/var/tmp/seedchk/src_' + sid
 shutil.rmtree(scr, ignore_errors=True)
 os.makedirs(scr)
@@ -29,7 +30,8 @@ meta['demo_without_change'] = out0.strip()
 rc, out = run(f'git init -q . 2>/dev/null; git apply --unsafe-paths {dst}/patch.diff 2>&1 || patch -p1 < {dst}/patch.diff')
 if 'error' in out.lower() and 'patch' not in out.lower():
     print('PATCH DID NOT APPLY', out); sys.exit(3)
-rc1, out1 = run('cargo test --offline --lib --doc 2>&1 | grep -E "^test result|error(\\[|:)" | head -4')
+run('find src -name "*.rs" | xargs touch')
+rc1, out1 = run('(cargo test --offline --lib; cargo test --offline --doc) 2>&1 | grep -E "^test result|error(\\[|:)" | head -4')
 meta['unit_tests_with_change'] = out1.strip()
 rc2, out2 = run('cargo test --offline --test demo 2>&1 | grep -E "^test result|error(\\[|:)" | head -3')
 meta['demo_with_change'] = out2.strip()
@@ -37,6 +39,7 @@ ok = ('ok.' in out0 and 'FAILED' not in out0) and ('FAILED' in out2) and ('FAILE
 meta['confirmed'] = ok
 print(json.dumps({k: meta[k] for k in ('demo_without_change', 'unit_tests_with_change', 'demo_with_change', 'confirmed')}, indent=1))
 shutil.rmtree(scr, ignore_errors=True)
+shutil.rmtree('/var/tmp/seedchk/target_' + sid, ignore_errors=True)
 if not ok:
     json.dump(meta, open(f'{dst}/meta.json', 'w'), indent=1)
     sys.exit(4)
